@@ -47,8 +47,8 @@ func mergeBuilderInto(fromBuilder ast.Builder, intoBuilder ast.Builder, underPat
 			continue
 		}
 
-		newAssignment := assignment
-		newAssignment.Path = underPath.Append(assignment.Path)
+		newAssignment := assignment.DeepCopy()
+		newAssignment.Path = underPath.Append(newAssignment.Path)
 		newBuilder.Constructor.Assignments = append(newBuilder.Constructor.Assignments, newAssignment)
 	}
 
@@ -58,7 +58,9 @@ func mergeBuilderInto(fromBuilder ast.Builder, intoBuilder ast.Builder, underPat
 			continue
 		}
 
-		newOpt := opt
+		// the merged options are copies: rules applied later to the source
+		// builder's options must not write through to them.
+		newOpt := opt.DeepCopy()
 		newOpt.Assignments = nil
 
 		if as, found := renameOptions[newOpt.Name]; found {
@@ -66,8 +68,8 @@ func mergeBuilderInto(fromBuilder ast.Builder, intoBuilder ast.Builder, underPat
 		}
 
 		for _, assignment := range opt.Assignments {
-			newAssignment := assignment
-			newAssignment.Path = underPath.Append(assignment.Path)
+			newAssignment := assignment.DeepCopy()
+			newAssignment.Path = underPath.Append(newAssignment.Path)
 
 			newOpt.Assignments = append(newOpt.Assignments, newAssignment)
 		}
